@@ -32,6 +32,7 @@ LP_SITES = {
     "_get_tlp_context": "_get_tlp_context",
     "_get_feasible_point": "plots._get_feasible_point",
     "_get_bounding_vertices": "plots._get_bounding_vertices",
+    "_get_extreme_point": "plots._get_bounding_vertices",
 }
 
 
@@ -76,12 +77,14 @@ class SolverSeam:
         self.calls_in_step = 0
         self.script: Optional[Dict] = None  # {"at": k, "kind": "iter"|"time"|"numerical", "site": optional}
         self.fired = 0
+        self.fired_sites: List[str] = []
         self.site_calls: Dict[str, int] = {}
 
     def begin_step(self, script: Optional[Dict]) -> None:
         self.calls_in_step = 0
         self.script = script
         self.fired = 0
+        self.fired_sites = []
         self.site_calls = {}
 
     def __call__(self, *args, **kwargs):
@@ -108,6 +111,7 @@ class SolverSeam:
                     res["status"] = 4
                     res["message"] = "Numerical difficulties encountered. (simulated relabelling of an authentic give-up response)"
                 self.fired += 1
+                self.fired_sites.append(site)
                 self.log.count("fault_fired:solver_" + kind)
                 self.log.count("fault_fired_site:" + site)
                 self.log.add("lp", site, idx, "FAULT", kind, int(res.status))
